@@ -31,6 +31,7 @@ theorem genTables_wf : genTables.WF where
   max_attained := by decide +kernel
   fits_utf8 := by decide +kernel
   subset := by decide +kernel
+  curtsies_lookup := by decide +kernel
   esc_is_key := by decide +kernel
 
 /-! ### (1) lossless -/
